@@ -236,6 +236,8 @@ CONVOLVE_PRELUDE = r'''
 #include <stdint.h>
 #include <stddef.h>
 #include <stdbool.h>
+/* the class's allocator pointer typedefs (splinetable.h), for the default allocator */
+typedef uint32_t* uint32_t_ptr; typedef uint64_t* uint64_t_ptr; typedef float* float_ptr; typedef double* double_ptr; typedef double_ptr* double_ptr_ptr;
 /* members (R1).  convolve() declares locals called naxes/strides/coefficients; `this->X` is rewritten to vp_this_X (R14) */
 uint32_t ndim; uint32_t* order; double** knots; uint64_t* nknots; double** extents;
 uint64_t* vp_this_naxes; uint64_t* vp_this_strides; float* vp_this_coefficients;
